@@ -343,24 +343,45 @@ def rule_i3(src, rep, fmt_mod, counts):
                 rep.ob("I3-memo-early-return", f.where(ret), f.scope, desc, ok and tested,
                        "a path that stores nothing must return the cached self.%s and only after testing that it is set" % slot)
                 continue
-            # value computed from self.chunks only
-            reads = {x.attr for x in ast.walk(vexpr) if is_self_attr(x)}
+            # value computed from self.chunks only: self attributes read by the value expression and, transitively, by
+            # every statement of the accessor that defines or fills a local the value mentions
+            def self_reads(e):
+                return {x.attr for x in ast.walk(e) if is_self_attr(x) and isinstance(x.ctx, ast.Load) and x.attr != slot}
+            reads = self_reads(vexpr)
+            work = [x.id for x in ast.walk(vexpr) if isinstance(x, ast.Name)]
+            done = set()
             src_expr = vexpr
-            if isinstance(vexpr, ast.Name):
-                # a local computed earlier on the path (every assignment to it except the read of the slot itself)
-                reads = set()
-                for ev in p.events:
-                    if ev[0] == "stmt" and isinstance(ev[1], (ast.Assign, ast.AnnAssign)) and getattr(ev[1], "value", None) is not None:
-                        hit, names = _slot_targets(ev[1], slot)
-                        if vexpr.id in names and not hit and not is_self_attr(ev[1].value, slot):
-                            src_expr = ev[1].value
-                            reads |= {x.attr for x in ast.walk(src_expr) if is_self_attr(x)}
-                # accumulations into that local (loops) also count
+            while work:
+                nm = work.pop()
+                if nm in done:
+                    continue
+                done.add(nm)
                 for node in f.own_nodes():
-                    if isinstance(node, ast.AugAssign) and isinstance(node.target, ast.Name) and node.target.id == vexpr.id:
-                        reads |= {x.attr for x in ast.walk(node.value) if is_self_attr(x)}
-                    if isinstance(node, (ast.For,)) and any(isinstance(x, ast.Name) and x.id == vexpr.id for x in ast.walk(node)):
-                        reads |= {x.attr for x in ast.walk(node.iter) if is_self_attr(x)}
+                    hit_expr = []
+                    if isinstance(node, (ast.Assign, ast.AnnAssign)) and getattr(node, "value", None) is not None:
+                        tg = node.targets if isinstance(node, ast.Assign) else [node.target]
+                        if any(isinstance(t, ast.Name) and t.id == nm for t in tg) and not is_self_attr(node.value, slot):
+                            hit_expr.append(node.value)
+                    elif isinstance(node, ast.AugAssign) and isinstance(node.target, ast.Name) and node.target.id == nm:
+                        hit_expr.append(node.value)
+                    elif isinstance(node, ast.Call) and isinstance(node.func, ast.Attribute) and isinstance(node.func.value, ast.Name) and \
+                            node.func.value.id == nm and node.func.attr in ("append", "extend", "add", "update", "insert"):
+                        hit_expr.extend(node.args)
+                        lp = f.module.enclosing(node, (ast.For,))
+                        while lp is not None:
+                            hit_expr.append(lp.iter)
+                            lp = f.module.enclosing(lp, (ast.For,))
+                    elif isinstance(node, ast.For) and any(isinstance(x, ast.Name) and x.id == nm and isinstance(x.ctx, ast.Store) for x in ast.walk(node.target)):
+                        hit_expr.append(node.iter)
+                    for h in hit_expr:
+                        reads |= self_reads(h)
+                        work.extend(x.id for x in ast.walk(h) if isinstance(x, ast.Name))
+                    if isinstance(node, ast.AugAssign) and isinstance(node.target, ast.Name) and node.target.id == nm:
+                        lp = f.module.enclosing(node, (ast.For,))
+                        while lp is not None:
+                            reads |= self_reads(lp.iter)
+                            work.extend(x.id for x in ast.walk(lp.target) if isinstance(x, ast.Name))
+                            lp = f.module.enclosing(lp, (ast.For,))
             rep.ob("I3-memo-value-from-chunks", f.where(store), f.scope, "self.%s = %s" % (slot, unparse(src_expr)[:80]),
                    reads <= {"chunks"} and bool(reads),
                    "the memoised value must be computed from self.chunks only; it reads self.%s" % sorted(reads))
